@@ -43,6 +43,7 @@ type checkCfg struct {
 	OutsideClaim []string     `json:"outside_claim"`
 	Bounds       map[string]string `json:"bounds"`
 	Stubs        []string     `json:"stubs"`
+	Solver       string       `json:"solver"`
 }
 
 type knownFinding struct {
@@ -150,6 +151,12 @@ func run(prop, tier string) int {
 			defer wg.Done()
 			sem <- struct{}{}
 			defer func() { <-sem }()
+			if h.Solver == "" {
+				h.Solver = cfg.Solver
+			}
+			if h.Solver == "" {
+				h.Solver = "cvc5"
+			}
 			outcomes[i] = runHarness(ld, h, tier, outDir)
 		}(i, h)
 	}
@@ -166,8 +173,14 @@ func run(prop, tier string) int {
 		if o == nil || o.res == nil {
 			continue
 		}
+		seenSite := map[string]bool{}
 		for i := range o.confirmed {
 			c := &o.confirmed[i]
+			site := c.v.Kind + "|" + c.v.Msg + "|" + c.v.Pos
+			if seenSite[site] {
+				continue
+			}
+			seenSite[site] = true
 			if k := matchKnown(known, prop, c.v); k != nil {
 				c.known = k
 				fmt.Printf("KNOWN-FINDING: property=%s %s\n", prop, k.Text)
@@ -182,6 +195,10 @@ func run(prop, tier string) int {
 			exit = 1
 		}
 		for _, u := range o.unconf {
+			if seenSite[u.Kind+"|"+u.Msg+"|"+u.Pos] {
+				continue // another model of the same violation did reproduce
+			}
+			seenSite[u.Kind+"|"+u.Msg+"|"+u.Pos] = true
 			fmt.Printf("UNCONFIRMED property=%s harness=%s kind=%s msg=%q at %s (solver model did not reproduce natively; encoding or stub suspect)\n", prop, u.Harness, u.Kind, u.Msg, u.Pos)
 			notes = append(notes, "unconfirmed: "+u.Harness+": "+u.Msg)
 		}
@@ -271,6 +288,7 @@ func nativePhase(ld *sym.Loaded, prop, tier string, outcomes []*hOutcome, outDir
 		file   string
 		inputs map[string][]uint64
 		engObs []sym.ObserveRec
+		alt    bool
 	}
 	byPkg := map[string][]*item{}
 	rng := rand.New(rand.NewSource(seed()))
@@ -291,6 +309,11 @@ func nativePhase(ld *sym.Loaded, prop, tier string, outcomes []*hOutcome, outDir
 				continue
 			}
 			byPkg[pkg] = append(byPkg[pkg], &item{o: o, viol: v, file: f, inputs: v.Model})
+			for k, alt := range v.Alt {
+				fa := filepath.Join(outDir, fmt.Sprintf("%s_cex%d_alt%d.json", o.res.Harness, i, k))
+				writeReplay(fa, replayDoc{Harness: o.res.Harness, Tier: tier, Inputs: alt})
+				byPkg[pkg] = append(byPkg[pkg], &item{o: o, viol: v, file: fa, inputs: alt, alt: true})
+			}
 		}
 		// translator validation: random concrete assignments over the harness's input names
 		k := o.cfg.Validate
@@ -379,6 +402,15 @@ func nativePhase(ld *sym.Loaded, prop, tier string, outcomes []*hOutcome, outDir
 	var mu sync.Mutex
 	var wg sync.WaitGroup
 	sem := make(chan struct{}, 6)
+	violDone := map[*sym.Violation]bool{}
+	violTried := map[*sym.Violation]*hOutcome{}
+	defer func() {
+		for v, o := range violTried {
+			if !violDone[v] {
+				o.unconf = append(o.unconf, *v)
+			}
+		}
+	}()
 	for pkg, items := range byPkg {
 		wg.Add(1)
 		go func(pkg string, items []*item) {
@@ -401,10 +433,13 @@ func nativePhase(ld *sym.Loaded, prop, tier string, outcomes []*hOutcome, outDir
 				}
 				if it.viol != nil {
 					if r.status == "fail" || r.status == "panic" {
-						it.o.confirmed = append(it.o.confirmed, confirmedV{v: *it.viol, replay: it.file, detail: r.status + ": " + r.detail})
+						if !violDone[it.viol] {
+							violDone[it.viol] = true
+							it.o.confirmed = append(it.o.confirmed, confirmedV{v: *it.viol, replay: it.file, detail: r.status + ": " + r.detail})
+						}
 					} else {
-						it.o.unconf = append(it.o.unconf, *it.viol)
 						os.WriteFile(it.file+".native.txt", []byte(r.status+"\n"+r.detail+"\n"+raw), 0o644)
+						violTried[it.viol] = it.o
 					}
 					continue
 				}
